@@ -36,3 +36,11 @@ func verifSameDocsExcept(db *sql.DB, snap int, coll int64, key string) bool   { 
 func verifSameTable(db *sql.DB, snap int, table string) bool                  { panic("intrinsic") }
 func verifSameDB(db *sql.DB, snap int) bool                                   { panic("intrinsic") }
 func verifTxnOpen(db *sql.DB) bool                                            { panic("intrinsic") }
+
+func verifXattrUniverse(n int) []string                     { panic("intrinsic") }
+func verifXattrHas(x []byte, name string) bool              { panic("intrinsic") }
+func verifXattrGet(x []byte, name string) []byte            { panic("intrinsic") }
+func verifXattrsWellFormed(x []byte) bool                   { panic("intrinsic") }
+func verifJSONValid(x []byte) bool                          { panic("intrinsic") }
+func verifJSONCanon(x []byte) []byte                        { panic("intrinsic") }
+func verifEncodeValueWithXattrs(body, xattrs []byte) []byte { panic("intrinsic") }
